@@ -628,7 +628,7 @@ func vhMedia(t *testing.T, v vhVec) vkM { //nolint:cyclop
 		out["steps"] = "write:" + strconv.FormatBool(e == nil)
 	}
 	// the receiver keeps working: media written after the hostile packet still arrives
-	if !flows(got.Load()+2, 5*time.Second) {
+	if !flows(got.Load()+2, 30*time.Second) {
 		out["outcome"] = "hung"
 	}
 	return out
